@@ -344,7 +344,9 @@ def check_layout_agreement(ctx, prog, R):
             out.append((h[1], x))
         return out
     hdr = None
-    c = prog.consts.get("abyssiniandb::filedb::inner::htx::HTX_HEADER_SZ")
+    from .consts import const_id
+    from .roles import M_HTX
+    c = prog.consts.get(const_id(prog, M_HTX, "HTX_HEADER_SZ") or "")
     if c and "int" in (c.get("v") or {}):
         hdr = int(c["v"]["int"])
     ctx.check(hdr is not None, "layout-agreement", "header-const", "HTX_HEADER_SZ constant not found")
@@ -452,5 +454,7 @@ def check(ctx):
     # size hints and the end of iteration come from the stored item count: it must step with every insert / delete
     import_rules(ctx, "c05", {"count-writers", "count-step", "count-arm", "field-position", "stored-length-read"})
     import_rules(ctx, "c01", {"op-wiring"})
+    # the key an iterator yields is built with the key type's from_bytes
+    import_rules(ctx, "c10", {"byte-identity"})
     # the iterator reads the table size from the header; lookups use the cached one: they must be the same number
     import_rules(ctx, "c07", {"stored-count-wins"})
